@@ -113,7 +113,22 @@ func VerifC10Mixed() {
 		defer func() { hb.OnEmit = nil }()
 	}
 	// valid entries by the authorised remote writer w2
-	lw, v1 := appendAs(env, nil, a.id, w2, []byte("v1"))
+	// (the valid head stands on a history of 0 or 3 older valid entries the replica does
+	// not hold yet: their fetches are still going on when a sibling item fails)
+	var lw *ipfslog.IPFSLog
+	var history []ipfslog.Entry
+	if vstub.NdChoice("valid-history", 2) == 1 {
+		for k := 0; k < 3; k++ {
+			var h ipfslog.Entry
+			lw, h = appendAs(env, lw, a.id, w2, []byte{'h', byte('0' + k)})
+			if h == nil {
+				return
+			}
+			history = append(history, h)
+		}
+		vstub.Cover("valid-head-with-history")
+	}
+	lw, v1 := appendAs(env, lw, a.id, w2, []byte("v1"))
 	if v1 == nil {
 		return
 	}
@@ -206,6 +221,9 @@ func VerifC10Mixed() {
 	vstub.Cover("re-announced")
 	vstub.Assert(inLog(a, v1), "C10 a valid entry announced again after a mixed announcement becomes visible")
 	vstub.Assert(inView(a, v1), "C10 a valid entry announced again after a mixed announcement is in the VIEW (not only in the log)")
+	for _, h := range history {
+		vstub.Assert(inLog(a, h) && inView(a, h), "C10 the history of a valid head announced again after a mixed announcement becomes visible too")
+	}
 
 	// the replica is still able to replicate: a newer valid head (child of v1)
 	_, v2 := appendAs(env, lw, a.id, w2, []byte("v2"))
